@@ -9,7 +9,7 @@ from props._script import run_script_property
 
 def run():
     chk = run_script_property(
-        "C02", "model_checking", kinds=["neareq", "small", "random", "huge", "records", "mixedkeys", "wide"],
+        "C02", "model_checking", kinds=["neareq", "small", "random", "huge", "records", "mixedkeys", "wide", "xml", "loaded", "csv", "dupkeys"],
         extra_rule="C02 adds the near-equality generator: half of its pairs are equal (identity + key permutation at "
                    "all depths), half differ by one atomic perturbation (scalar type change keeping the text, one "
                    "character, string <-> empty string, swap of two unequal list elements, added/removed empty "
@@ -20,6 +20,10 @@ def run():
         _cli = None
     if _cli is not None:
         _cli.exit_status_runs(chk)
+    # which edit a pair of nodes gets in the first place (L2 decision table: spec/Choose.tla): equal nodes a free Match, unequal
+    # ones never; every ordered pair of a pool of small real nodes of every kind against the table
+    from props import _choose
+    _choose.check(chk)
     return chk.finish()
 
 
